@@ -135,9 +135,8 @@ pub fn convert_node(ast: &ASTTy, imp: &mut Imports, state: &State, ctx: &Context
         NodeTy::Return { expr } if state.is_remove_last_ret => {
             convert_node(expr, imp, &state.remove_ret(false), ctx)?
         }
-        NodeTy::Return { expr } => Core::Return {
-            expr: Box::from(convert_node(expr, imp, state, ctx)?),
-        },
+        // what is returned may be a statement (a block-form if, a match, a handle): the return goes inside
+        NodeTy::Return { expr } => append_ret(&convert_node(expr, imp, state, ctx)?),
 
         NodeTy::IfElse { .. } => convert_cntrl_flow(ast, imp, &old_state, ctx)?,
         NodeTy::Match { .. } => convert_cntrl_flow(ast, imp, &old_state, ctx)?,
@@ -350,7 +349,9 @@ fn interpolate(lit: &str, expressions: &[Core]) -> Option<String> {
 
             if depth == 0 && !cur_expr.is_empty() {
                 cur_expr.pop(); // closing bracket
-                if !cur_expr.is_empty() {
+                if cur_expr.is_empty() {
+                    out.push_str("{}"); // empty brackets are text: `{{}}`
+                } else {
                     out.push_str(&match expressions.next() {
                         Some(core) => python_in_string(core)?,
                         None => cur_expr.clone(),
